@@ -2,6 +2,7 @@
   C10 — pre-computed results can be substituted for closed sub-formulae.
 -/
 import HctlProofs.Lemmas.Laws
+import HctlProofs.Lemmas.EntryPoints
 namespace Hctl.C10
 open Hctl Kripke
 
@@ -91,5 +92,187 @@ theorem ext_empty_ctx (ctx : ECtx) : ctx.extendWithWildCards [] [] = ctx := by
 example : substAll (.un .ef (.atom (.prop ['a']))) ['w']
     (.bin .and (.un .ef (.atom (.prop ['a']))) (.un .ax (.un .ef (.atom (.prop ['a'])))))
     = .bin .and (.atom (.wild ['w'])) (.un .ax (.atom (.wild ['w']))) := by decide
+
+section
+variable {E : Env} (hE : EnvOK E) (hG : GraphWF E.G)
+include hE hG
+
+omit hE in
+theorem R_lt {c s t : Nat} (hs : s < E.G.nS) (h : E.G.R c s t) : t < E.G.nS := by
+  rcases h with ⟨j, _, hj⟩ | ⟨_, rfl⟩
+  · exact hG.step_lt c j s t hj hs
+  · exact hs
+
+theorem path_lt {c s : Nat} (hs : s < E.G.nS) (π : Path (E.G.R c) s) : ∀ i, π.π i < E.G.nS := by
+  intro i
+  induction i with
+  | zero => rw [π.h0]; exact hs
+  | succ i ih => exact R_lt hE hG ih (π.hstep i)
+
+/-- SEMANTIC SUBSTITUTION ON THE UNIVERSE: it suffices that the wild-card agrees with the sub-formula on the points of
+the universe with the colour in question -/
+theorem sat_subst_on (K : SemCtx) (g : Tree) (w : Name) (c0 : Nat)
+    (h : ∀ q ∈ E.pts, q.c = c0 → (sat E.G K (.atom (.wild w)) q ↔ sat E.G K g q)) :
+    ∀ f p, p ∈ E.pts → p.c = c0 → (sat E.G K (substAll g w f) p ↔ sat E.G K f p) := by
+  intro f
+  induction f with
+  | atom a =>
+    intro p hp hc
+    simp only [substAll]
+    split
+    · rename_i heq; rw [heq]; exact h p hp hc
+    · exact Iff.rfl
+  | un o c ih =>
+    intro p hp hc
+    simp only [substAll]
+    split
+    · rename_i heq; rw [heq]; exact h p hp hc
+    · have hs := s_lt' hE hG hp
+      have ihp : ∀ (π : Path (E.G.R p.c) p.s) i,
+          sat E.G K (substAll g w c) (p.setS (π.π i)) ↔ sat E.G K c (p.setS (π.π i)) :=
+        fun π i => ih _ (setS_mem' hE hG hp (path_lt hE hG hs π i)) hc
+      have ihr : ∀ t, E.G.R p.c p.s t → (sat E.G K (substAll g w c) (p.setS t) ↔ sat E.G K c (p.setS t)) :=
+        fun t ht => ih _ (setS_mem' hE hG hp (R_lt hE hG hs ht)) hc
+      cases o with
+      | not => simp only [sat, ih p hp hc]
+      | ex =>
+        simp only [sat]
+        constructor
+        · rintro ⟨t, ht, h1⟩; exact ⟨t, ht, (ihr t ht).mp h1⟩
+        · rintro ⟨t, ht, h1⟩; exact ⟨t, ht, (ihr t ht).mpr h1⟩
+      | ax =>
+        simp only [sat]
+        constructor
+        · intro hh t ht; exact (ihr t ht).mp (hh t ht)
+        · intro hh t ht; exact (ihr t ht).mpr (hh t ht)
+      | ef => simp only [sat, ihp]
+      | af => simp only [sat, ihp]
+      | eg => simp only [sat, ihp]
+      | ag => simp only [sat, ihp]
+  | bin o l r ihl ihr =>
+    intro p hp hc
+    simp only [substAll]
+    split
+    · rename_i heq; rw [heq]; exact h p hp hc
+    · have hs := s_lt' hE hG hp
+      have il : ∀ (π : Path (E.G.R p.c) p.s) i,
+          sat E.G K (substAll g w l) (p.setS (π.π i)) ↔ sat E.G K l (p.setS (π.π i)) :=
+        fun π i => ihl _ (setS_mem' hE hG hp (path_lt hE hG hs π i)) hc
+      have ir : ∀ (π : Path (E.G.R p.c) p.s) i,
+          sat E.G K (substAll g w r) (p.setS (π.π i)) ↔ sat E.G K r (p.setS (π.π i)) :=
+        fun π i => ihr _ (setS_mem' hE hG hp (path_lt hE hG hs π i)) hc
+      cases o <;> simp only [sat, untilOn, il, ir, ihl p hp hc, ihr p hp hc]
+  | hyb o x d c ih =>
+    intro p hp hc
+    simp only [substAll]
+    split
+    · rename_i heq; rw [heq]; exact h p hp hc
+    · have hs := s_lt' hE hG hp
+      cases o with
+      | bind => simp only [sat]; rw [ih _ (setV_mem' hE hG hp hs) hc]
+      | jump => simp only [sat]; rw [ih _ (setS_mem' hE hG hp (getV_lt' hE hG _ hp)) hc]
+      | ex =>
+        simp only [sat]
+        constructor
+        · rintro ⟨t, ht, h1, h2⟩; exact ⟨t, ht, h1, (ih _ (setV_mem' hE hG hp ht) hc).mp h2⟩
+        · rintro ⟨t, ht, h1, h2⟩; exact ⟨t, ht, h1, (ih _ (setV_mem' hE hG hp ht) hc).mpr h2⟩
+      | all =>
+        simp only [sat]
+        constructor
+        · intro hh t ht h1; exact (ih _ (setV_mem' hE hG hp ht) hc).mp (hh t ht h1)
+        · intro hh t ht h1; exact (ih _ (setV_mem' hE hG hp ht) hc).mpr (hh t ht h1)
+
+end
+
+/-- satisfaction depends on the context only through the labels that occur -/
+theorem sat_ctx_congr (G : Graph) (K1 K2 : SemCtx) (hd : K1.dom = K2.dom) :
+    ∀ t, (∀ w ∈ wildLabels t, K1.wild w = K2.wild w) → ∀ p, (sat G K1 t p ↔ sat G K2 t p) := by
+  have hin : ∀ d q, inDom K1 d q ↔ inDom K2 d q := by
+    intro d q; cases d <;> simp [inDom, hd]
+  intro t
+  induction t with
+  | atom a =>
+    intro h p
+    cases a with
+    | wild w => simp only [sat, h w (by simp [wildLabels])]
+    | _ => simp only [sat]
+  | un o c ih =>
+    intro h p
+    have ih' : ∀ q, sat G K1 c q ↔ sat G K2 c q := ih (by simpa [wildLabels] using h)
+    cases o <;> simp only [sat, ih']
+  | bin o l r ihl ihr =>
+    intro h p
+    simp only [wildLabels, List.mem_append] at h
+    have il : ∀ q, sat G K1 l q ↔ sat G K2 l q := ihl (fun w hw => h w (Or.inl hw))
+    have ir : ∀ q, sat G K1 r q ↔ sat G K2 r q := ihr (fun w hw => h w (Or.inr hw))
+    cases o <;> simp only [sat, il, ir]
+  | hyb o x d c ih =>
+    intro h p
+    have ih' : ∀ q, sat G K1 c q ↔ sat G K2 c q := ih (by simpa [wildLabels] using h)
+    cases o <;> simp only [sat, ih', hin]
+
+/-- the context in which the wild-card `w` is bound to the set `a` -/
+def setWild (K : SemCtx) (w : Name) (a : CSet) : SemCtx := ⟨fun n => if n = w then some a else K.wild n, K.dom⟩
+
+theorem wellNamed_subst (k : Nat) (g : Tree) (w : Name) : ∀ (f : Tree) (d : Nat), WellNamed k d f → WellNamed k d (substAll g w f) := by
+  intro f
+  induction f with
+  | atom a => intro d h; simp only [substAll]; split <;> simp_all [WellNamed]
+  | un o c ih => intro d h; simp only [substAll]; split; simp [WellNamed]; exact ih d h
+  | bin o l r ihl ihr => intro d h; simp only [substAll]; split; simp [WellNamed]; exact ⟨ihl d h.1, ihr d h.2⟩
+  | hyb o x dom c ih =>
+    intro d h
+    simp only [substAll]
+    split
+    · simp [WellNamed]
+    · by_cases hj : o = .jump
+      · simp only [WellNamed, hj, if_true] at h ⊢; exact ih d h
+      · simp only [WellNamed, hj, if_false] at h ⊢; exact ⟨h.1, h.2.1, ih (d + 1) h.2.2⟩
+
+theorem domsIn_subst (K : SemCtx) (g : Tree) (w : Name) : ∀ (f : Tree), DomsIn K f → DomsIn K (substAll g w f) := by
+  intro f
+  induction f with
+  | atom a => intro h; simp only [substAll]; split <;> simp [DomsIn]
+  | un o c ih => intro h; simp only [substAll]; split; simp [DomsIn]; exact ih h
+  | bin o l r ihl ihr => intro h; simp only [substAll]; split; simp [DomsIn]; exact ⟨ihl h.1, ihr h.2⟩
+  | hyb o x dom c ih =>
+    intro h
+    simp only [substAll]
+    split
+    · simp [DomsIn]
+    · cases dom with
+      | none => simp only [DomsIn] at h ⊢; exact ih h
+      | some l => simp only [DomsIn] at h ⊢; exact ⟨h.1, ih h.2⟩
+
+/-- MAIN (set level): evaluating `f` with the closed sub-formula `g` replaced by a fresh wild-card bound to the RAW
+RESULT of `g` gives, on every point of the universe, the same result as evaluating `f` itself. -/
+theorem substitute_raw_result {E : Env} (hE : EnvOK E) (hG : GraphWF E.G) (K : SemCtx) (hK : CtxOK E K) (f g : Tree)
+    (w : Name) (hwf : WellNamed E.G.k 0 f) (hdf : DomsIn K f) (hwg : WellNamed E.G.k 0 g) (hdg : DomsIn K g)
+    (hfresh_f : w ∉ wildLabels f) (hfresh_g : w ∉ wildLabels g) :
+    ∀ p ∈ E.pts, evalTop E (setWild K w (evalTop E K g)) (substAll g w f) p = evalTop E K f p := by
+  intro p hp
+  have hK' : CtxOK E (setWild K w (evalTop E K g)) := ⟨hK.domIndep⟩
+  have e1 := evalTop_correct hE hG _ hK' (substAll g w f) (wellNamed_subst _ g w f 0 hwf)
+    (domsIn_subst _ g w f ((domsIn_iff _ f).mpr (fun d hd => (domsIn_iff K f).mp hdf d hd))) p hp
+  have e2 := evalTop_correct hE hG K hK f hwf hdf p hp
+  apply Bool.eq_iff_iff.mpr
+  rw [e1, e2]
+  apply and_congr_right
+  intro hv
+  have hagree : ∀ t, w ∉ wildLabels t → ∀ q, (sat E.G (setWild K w (evalTop E K g)) t q ↔ sat E.G K t q) := by
+    intro t ht q
+    apply sat_ctx_congr E.G (setWild K w (evalTop E K g)) K rfl t
+    intro x hx
+    have : x ≠ w := fun h => ht (h ▸ hx)
+    simp [setWild, this]
+  rw [sat_subst_on hE hG _ g w p.c ?_ f p hp rfl]
+  · exact hagree f hfresh_f p
+  · intro q hq hqc
+    rw [hagree g hfresh_g q]
+    simp only [sat, setWild, if_true]
+    have := evalTop_correct hE hG K hK g hwg hdg q hq
+    constructor
+    · rintro ⟨a, ha, h⟩; cases ha; exact (this.mp h).2
+    · intro h; exact ⟨_, rfl, this.mpr ⟨by rw [hqc]; exact hv, h⟩⟩
 
 end Hctl.C10
